@@ -49,7 +49,8 @@ PROPS = {
         "assumptions": ["slice::sort and rayon par_sort are stable sorts (their documented contract); the model uses an insertion sort and the "
                         "theorem C11_stable_sort_determined shows any sorted, stable rearrangement is the same list",
                         "binary_find = linear_find is proved for every structure whose serial numbers increase strictly in traversal order and that has "
-                        "no empty container (C11_binary_find_is_linear_find); that renumber produces such numbers is checked on the explored structures"],
+                        "no empty container (C11_binary_find_is_linear_find), and renumber is proved to produce such numbers (C11_binary_find_on_renumbered); "
+                        "renumber idempotence and the base-26 letters are checked on the explored structures"],
     },
     "C12": {
         "translators": ["t2b"],
